@@ -523,8 +523,8 @@ func makeSizeSafe(t *Terminal, e *Event) (bool, string) {
 	}
 	existing := true
 	for term, coef := range cp.t {
-		if coef > 0 && !(strings.HasPrefix(term, "len(") || strings.HasPrefix(term, "cap(")) {
-			existing = false
+		if coef > 0 && !(strings.HasPrefix(term, "len(") || strings.HasPrefix(term, "cap(") || strings.Contains(term, "base64.Encoding).DecodedLen(") || strings.Contains(term, "base64.Encoding).EncodedLen(")) {
+			existing = false // (the base64 length functions are bounded by a small multiple of their argument, a length)
 		}
 	}
 	if existing {
